@@ -460,6 +460,10 @@ def r3_growth(program, rep):
     ok2 = ok
     if ok2:
         hp = [c for c in calls_in(fn, "heappush") if len(c.args) == 2]
+        if not hp and not calls_in(fn, "heappop"):
+            raise AnalysisError("a_star: the chips to explore are not kept "
+                                "in a heapq heap; the queue discipline is "
+                                "not analysed")
         ok2 = len(hp) == 1
         if ok2:
             hn = cfg.node_containing(hp[0])
@@ -689,10 +693,20 @@ def r5_reconnect(program, rep):
                                          (plain(LOOKUP),), ()),
                                 "difference"),
                        (V("x"),), ()), plain(a[2]))
-            ok = m is not None
-            if ok:
+            if m is not None:
                 EXCLp = m["x"]
                 EXCL = a[2][2][0]
+            else:
+                # set(lookup) - <excluded>
+                m = match(("binop", "Sub", ("call", ("global", "set"),
+                                            (plain(LOOKUP),), ()), V("x")),
+                          plain(a[2]))
+                if m is None:
+                    raise AnalysisError("avoid_dead_links: the search "
+                                        "targets are not set(lookup) less a "
+                                        "set of chips; not analysed")
+                EXCLp = m["x"]
+                EXCL = a[2][3]
     rep.check(ok, "C03-R5", inst, "each orphan is reconnected by a search "
               "from its root towards its former parent, to any node of the "
               "tree except a set of excluded chips",
@@ -791,7 +805,7 @@ def r5_reconnect(program, rep):
             NEW = ("item", LOOKUP, CHIP)
             item = view.term(c.args[0], view.cfg.node_containing(c))
             edges = [st_ for st_ in subterms(item)
-                     if st_[0] == "cmp" and st_[1] == "Eq" and
+                     if st_[0] == "cmp" and st_[1] in ("Eq", "Is") and
                      NEW in (st_[2], st_[3])]
             if not edges:
                 # the list of matching edges filled by a loop instead of a
@@ -807,8 +821,9 @@ def r5_reconnect(program, rep):
                         for c__, p__ in conds__:
                             if view is not T:
                                 c__ = view._x(c__)
-                            if p__ and c__[0] == "cmp" and c__[1] == "Eq" \
-                                    and NEW in (c__[2], c__[3]):
+                            if p__ and c__[0] == "cmp" and \
+                                    c__[1] in ("Eq", "Is") and \
+                                    NEW in (c__[2], c__[3]):
                                 edges.append(c__)
             okd = bool(edges)
     if not okd and dom == "?" and rms:
@@ -951,6 +966,7 @@ def r6_truncation(program, rep):
               node=fn)
     # every retained hop adds a fresh node under the previous one
     okn = False
+    site_read = False
     if ROUTE is not None:
         for n_, c, recv, args in method_calls(T, "append"):
             if not (recv[0] == "attr" and recv[2] == "children" and
@@ -962,12 +978,19 @@ def r6_truncation(program, rep):
                        (("comp", V("E"), 1),), (), ANY), THIS)
             if m is None or m["E"][0] != "elem":
                 continue
+            site_read = True
             E = m["E"]
             hop_ok = plain(args[0][1]) == ("call", ("global", "Routes"),
                                            (("comp", plain(E), 0),), ())
             reg = [x for x in stores(T) if x[2] == ROUTE and x[4] == THIS
                    and x[3] == ("comp", E, 1)]
             LAST = recv[1]
+            if LAST[0] not in ("mu", "phi"):
+                # the parent of each new node is not a variable carried
+                # round the loop (a list of parents made beforehand, ...)
+                raise AnalysisError("ner_net: the node each hop hangs from "
+                                    "is not carried from hop to hop; not "
+                                    "analysed")
             alts = alternatives(LAST)
             starts = [x for x in alts if lookup(x) is not None and
                       lookup(x)[0] == ROUTE]
@@ -975,6 +998,11 @@ def r6_truncation(program, rep):
                 len(starts) == 1 and all(x in (THIS, starts[0], ("rec",))
                                          for x in alts) and \
                 LDF0 in alternatives(E[1]) + [E[1]]
+    if ROUTE is not None and not site_read:
+        # no `<node>.children.append((Routes(direction), RoutingTree(xy)))`
+        # over the hops of the path: the splice is written some other way
+        raise AnalysisError("ner_net: the retained hops are spliced into the "
+                            "tree in a form this rule does not read")
     rep.check(okn, "C03-R6", inst, "every retained hop adds a fresh node, "
               "registered in the tree's lookup, under the previous node with "
               "the hop's direction", construct="path splice", node=fn)
